@@ -54,6 +54,12 @@ def edit_sdp(text, edit):
         lines = [l for l in lines if not l.startswith("a=setup:")]
     elif edit == 5:
         lines = ["a=setup:actpass" if l.startswith("a=setup:") else l for l in lines]
+    elif edit in (6, 7, 8):
+        # the same defects in the LAST media section only (the other sections of the BUNDLE group stay well formed)
+        idx = [i for i, l in enumerate(lines) if l.startswith("m=")]
+        cut = idx[-1] if idx else 0
+        drop = {6: lambda l: l.startswith("a=ice-ufrag:"), 7: lambda l: l == "a=rtcp-mux", 8: lambda l: l.startswith("a=setup:")}[edit]
+        lines = lines[:cut] + [l for l in lines[cut:] if not drop(l)]
     return "\r\n".join(lines)
 
 
@@ -311,8 +317,8 @@ def full_alphabet():
     out = core_alphabet()
     for p in (0, 1):
         out += [[p, 4, 1, 1, -1]]                                   # answer with an m-section missing
-        out += [[p, 4, 1, e, -1] for e in (2, 3, 4, 5)]             # defective answers
-        out += [[p, 4, 0, e, -1] for e in (2, 4)]                   # defective offers (ICE, DTLS)
+        out += [[p, 4, 1, e, -1] for e in (2, 3, 4, 5, 6, 7, 8)]    # defective answers
+        out += [[p, 4, 0, e, -1] for e in (2, 4, 6, 8)]             # defective offers (ICE, DTLS)
     return out
 
 
@@ -502,7 +508,7 @@ class C14(Check):
                         ops.append([p, 2, src, 0, -1])
                     s.state = s.next(side, typ)
                 else:
-                    edit = 0 if rng.random() < 0.75 else rng.randrange(1, 6)
+                    edit = 0 if rng.random() < 0.75 else rng.randrange(1, 9)
                     ops.append([p, 4, src, edit, -1])
                     if edit == 0 or (edit == 5 and src == 0):
                         s.state = s.next(side, typ)
@@ -730,7 +736,7 @@ class C14(Check):
              "len>10": 0, "reached_have_local_offer": 0, "reached_have_remote_offer": 0, "completed_negotiation": 0,
              "renegotiated": 0, "closed": 0, "exotic_type": 0, "cfg": [0] * NCFG,
              "calls_by_kind": {"createOffer": 0, "createAnswer": 0, "setLocal": 0, "setLocalImplicit": 0,
-                               "setRemote": 0, "close": 0}, "edited": [0] * 6}
+                               "setRemote": 0, "close": 0}, "edited": [0] * 9}
         names = ["createOffer", "createAnswer", "setLocal", "setLocalImplicit", "setRemote", "close"]
         for c, o in zip(cases, outs):
             n = len(c[1])
@@ -768,7 +774,8 @@ class C14(Check):
     def describe_case(self, case):
         names = ["createOffer", "createAnswer", "setLocalDescription", "setLocalDescription()", "setRemoteDescription",
                  "close"]
-        edits = ["", " -m-section", " -ice-ufrag", " -rtcp-mux", " -setup", " setup:actpass"]
+        edits = ["", " -m-section", " -ice-ufrag", " -rtcp-mux", " -setup", " setup:actpass", " -ice-ufrag(last section)",
+                 " -rtcp-mux(last section)", " -setup(last section)"]
         out = []
         for op in case[1]:
             s = "pc%d.%s" % (op[0], names[op[1]])
